@@ -75,7 +75,7 @@ def judge(work, trace, tag=""):
 def bad_by_pair(v):
     out = {}
     for b in v["bad"]:
-        out.setdefault(b["id"], {}).setdefault(b["reason"], set()).add(b["rep"])
+        out.setdefault(b["id"], {}).setdefault(b["reason"], set()).add(b["pos"])
     return out
 
 
@@ -191,8 +191,8 @@ def run(tier, seed, replay=None):
 
         confirmed = {}
         if bad:
-            log("%d pairs rejected by TLC; re-executing them 3x (all repetitions)" % len(bad))
-            confirmed = reproduce(work, binary, pairs, bad, reps, seed)
+            log("%d pairs rejected by TLC; re-executing them 3x (up to 100 repetitions each)" % len(bad))
+            confirmed = reproduce(work, binary, pairs, bad, min(reps, 100), seed)
 
         known = load_known(PROP)
         for i, reasons in sorted(confirmed.items()):
@@ -209,7 +209,9 @@ def run(tier, seed, replay=None):
         selftest = binding_selftest(work, lines, bad)
 
         distinct = len({pair_key(p) for p in pairs.values()})
-        harmless = sorted({(pairs[i]["mech"], pairs[i]["rel"], pairs[i]["comp"]) for i in v["harmless"]})
+        harmless = sorted({(pairs[i]["mech"], pairs[i]["rel"], pairs[i]["comp"]) for i in v["harmless"]
+                           if pairs[i]["rel"] != "open"})
+        open_reuse = sorted({(pairs[i]["mech"], pairs[i]["comp"]) for i in v["harmless"] if pairs[i]["rel"] == "open"})
         verdict.coverage.update({
             "traces_validated_against_impl": len(lines) // 2,
             "evaluations": 2 * len(lines),
@@ -220,9 +222,11 @@ def run(tier, seed, replay=None):
             "repetitions_per_pair": reps,
             "expected_hits": v["expected_hits"],
             "rejected_pairs": len(bad),
+            "rejected_evaluations": v["rejected_evaluations"],
             "reproduced_pairs": len(confirmed),
             "not_reproduced": sorted(set(bad) - set(confirmed))[:10],
             "observations_harmless_reuse_across_different_inputs": [list(h) for h in harmless],
+            "observations_left_open_reuse_changing_the_result": [list(h) for h in open_reuse],
             "mechanisms": sorted({p["mech"] for p in pairs.values()}),
             "binding_selftest": selftest,
             "samples": lines[:2],
@@ -245,7 +249,7 @@ def do_replay(work, binary, replay, reps, seed):
     bad = bad_by_pair(v)
     for i, reasons in sorted(bad.items()):
         print("VIOLATION property=%s replay=%s  # %s" % (
-            PROP, replay, ",".join("%s (%d of %d repetitions)" % (r, len(n), reps) for r, n in sorted(reasons.items()))))
+            PROP, replay, ",".join(sorted(reasons))))
     print("replayed %d evaluations, %d pairs rejected" % (v["lines"], len(bad)))
     return 1 if bad else 0
 
